@@ -222,7 +222,7 @@ def check_lifecycles(ctx: Ctx, rule: str = 'R2.2') -> None:
         if f.outer is not None or f.cls is not None:
             continue
         pos = list(f.node.args.posonlyargs) + list(f.node.args.args)
-        if pos and (repo.resolve(m, pos[0].annotation) or '').endswith('lifecycles.Handlers') if pos and pos[0].annotation is not None else False:
+        if pos and pos[0].annotation is not None and (repo.resolve(m, pos[0].annotation) or '').endswith('lifecycles.Handlers'):
             fns.append(f)
     ctx.require_sites(rule, 'built-in lifecycles (functions taking the offered handlers first)', len(fns), 5, m.relpath())
     for f in fns:
@@ -279,11 +279,14 @@ def check_formulas(ctx: Ctx, rule: str = 'R2.3') -> None:
     awk = repo.fn(f'{PRG}.HandlerState.awakened')
     ctx.analysed(fin, awk)
     inline = {fin.qualname} | ({slp.qualname} if slp else set())
+    def delayed_set(p):
+        # `delayed is not None`, or its truthiness (a timestamp is never falsy)
+        dn = p.atom(r'^isnone\(self\.delayed\)$')
+        return (not dn) if dn is not None else p.atom(r'^truthy\(self\.delayed\)$')
     atoms = {
         'S': r'^truthy\(self\.success\)$',
         'F': r'^truthy\(self\.failure\)$',
-        'DN': (r'^isnone\(self\.delayed\)$', 'isnone(self.delayed)'),
-        'DT': (r'^truthy\(self\.delayed\)$', 'truthy(self.delayed)'),
+        'SET': delayed_set,
         'REL': (lambda p: cmp_rel(p, lambda k: k == 'self.delayed', is_now_key), REL3),     # delayed REL now
     }
 
@@ -296,10 +299,7 @@ def check_formulas(ctx: Ctx, rule: str = 'R2.3') -> None:
            lambda v: v['S'] or v['F'], ret, what='HandlerState.finished == success or failure', tag='formula')
 
     def awakened(v):
-        if v['DN'] and v['DT']:
-            return SKIP            # None is falsy
-        delayed_set = not v['DN'] and v['DT'] if 'DT' in v else not v['DN']
-        return (not (v['S'] or v['F'])) and not (not v['DN'] and v['REL'] == '>')
+        return (not (v['S'] or v['F'])) and not (v['SET'] and v['REL'] == '>')
     paths = absint.analyse(repo, awk, absint.Config(inline_props=inline))
     table3(ctx, rule, awk, paths, atoms, awakened, ret, tag='formula', min_rows=2,
            what='HandlerState.awakened == not finished and not (delayed is set and delayed > now)')
@@ -577,7 +577,8 @@ def check_cycle_closing(ctx: Ctx, rule_order: Optional[str] = 'R2.6', rule_guard
             if flag_only else
             'process_changing_cause: the cycle is closed (progress purged, diff-base stored unless unchanged, fully_handled_once set) exactly when '
             'every selected handler has finished (`state.done` of the state merged with the outcomes) or no handler was selected; never otherwise')
-    table3(ctx, rule_guard, f, paths, atoms, spec, observe, what=what, tag='table:closing' + ('-flag' if flag_only else ''), min_rows=3)
+    table3(ctx, rule_guard, f, paths, atoms, spec, observe, what=what, tag='table:closing' + ('-flag' if flag_only else ''), min_rows=2 if flag_only else 3,
+           short='process_changing_cause closing table')
     if not flag_only:
         # the essence stored as the new diff-base is the one the handlers were selected for
         for c in calls_in(f.node):
